@@ -153,9 +153,17 @@ class Check:
                     dis.append({'case': {'kind': 'collection', 'docs': docs_, 'how': 'strings'}, 'impl': str(a[:2]), 'model': str(b[:2]), 'explained': False})
             # listings
             npages = 5 if tier == 'quick' else 20
-            for trial in range(60 if tier == 'quick' else 600):
+            # fixed cases first (what the random ones below reach only now and then): prefix and suffix overlapping inside a key,
+            # the prefix a whole key, the suffix a whole key, the empty suffix, a key equal to prefix + suffix
+            fixed = [(['x/ro1.xml', 'x/ro1.mos.xml', 'x/ro2.xml'], 'x/ro1.', '.xml'), (['x/ro1.mos.xml', 'x/ro1.mos.xml.bak'], 'x/ro1.mos.xml', '.mos.xml'),
+                     (['.mos.xml', 'a.mos.xml'], '', '.mos.xml'), (['x/ro1.mos.xml', 'x/ro1.mos.x'], 'x/ro1.mos.x', '.mos.xml'),
+                     (['pre/.mos.xml', 'pre/a.mos.xml', 'pre/'], 'pre/', '.mos.xml'), (['a', 'b/c', 'd.xml'], None, ''), (['ab.xml'], 'a', 'ab.xml')]
+            for trial in range(len(fixed) + (60 if tier == 'quick' else 600)):
                 pages, keys = [], []
-                for p in range(rng.randrange(0, npages + 1)):
+                if trial < len(fixed):
+                    keys = list(fixed[trial][0])
+                    pages = [{}] + [{'Contents': [{'Key': x}]} for x in keys] + [{}]
+                for p in range(rng.randrange(0, npages + 1) if trial >= len(fixed) else 0):
                     if rng.random() < 0.3:
                         pages.append({} if rng.random() < 0.7 else {'IsTruncated': False})
                     else:
@@ -171,6 +179,8 @@ class Check:
                     # a prefix cut out of a key at any position (it may overlap the suffix, or be the whole key)
                     k0 = rng.choice(keys)
                     prefix = k0[:rng.randrange(0, len(k0) + 1)]
+                if trial < len(fixed):
+                    prefix, suffix = fixed[trial][1], fixed[trial][2]
                 fakes3.install(s3mod, pages=pages, objects={}, lazy=(trial % 2 == 0))
                 got = s3mod.get_mos_files('bucket', prefix, suffix=suffix)
                 n += 1
